@@ -728,11 +728,11 @@ class GetClearModbusPlusRequest(DiagnosticStatusSimpleRequest):
         Func_code (1 byte) + Sub function code (2 byte) + Operation (2 byte) + Data (108 bytes)
         :return:
         """
-        if self.message == ModbusPlusOperation.GetStatistics:
-            data = 2 + 108 # byte count(2) + data (54*2)
+        if self.message == ModbusPlusOperation.ClearStatistics:
+            data = 0  # only the operation field is echoed
         else:
-            data = 0
-        return 1 + 2 + 2 + 2+ data
+            data = 2 * len(_MCB.Plus.encode())  # the statistics words
+        return 1 + 2 + 2 + data
 
     def execute(self, *args):
         ''' Execute the diagnostic request on the given device
